@@ -1,0 +1,25 @@
+//go:build verif
+
+// Verification hooks (build tag `verif` only, add-only): the CNI argument path of a pod - the raw members
+// of the extended-args annotation and the resolved networks with the arguments galaxy attaches to them -
+// so that a harness can feed annotations written by galaxy-ipam to the real code and pass the result on
+// to cniutil.CmdAdd.
+package galaxy
+
+import (
+	"encoding/json"
+
+	corev1 "k8s.io/api/core/v1"
+	"tkestack.io/galaxy/pkg/api/cniutil"
+	galaxyapi "tkestack.io/galaxy/pkg/api/galaxy"
+)
+
+// VerifParseExtendedCNIArgs is parseExtendedCNIArgs.
+func VerifParseExtendedCNIArgs(pod *corev1.Pod) (map[string]json.RawMessage, error) {
+	return parseExtendedCNIArgs(pod)
+}
+
+// VerifResolveNetworkInfos is resolveNetworks, returning the network infos themselves.
+func (g *Galaxy) VerifResolveNetworkInfos(req *galaxyapi.PodRequest, pod *corev1.Pod) ([]*cniutil.NetworkInfo, error) {
+	return g.resolveNetworks(req, pod)
+}
